@@ -53,6 +53,19 @@ Theorem reduce_sums_the_window : forall (size : nat) (iv t0 : Z) (ig : bool) (h 
 Proof. exact reduce_sum_window. Qed.
 Print Assumptions reduce_sums_the_window.
 
+(* Reduce is ONE read of the window: rw_reduce above is applied to one window state.  The code
+   provides this by holding the window's read lock from choosing the buckets to the last callback
+   (an Add from another goroutine waits; forced-schedule kind `window_gate`).  For a Reduce that
+   overlaps Adds, Check.prop_ok accepts the Reduce of the state before them or after the first j
+   of them - never a mixture (Pinned.reduce_by_reference_mixes_states_refuted) - and what the
+   code does is among these. *)
+Theorem reduce_under_lock_is_a_one_state_view : forall (size : nat) (iv t0 : Z) (ig : bool)
+    (h : list (Z * Z)) (now : Z) (adds : list (Z * Z)),
+  (1 <= size)%nat -> 0 < iv -> rw_mono t0 h -> rw_last_time t0 h <= now ->
+  In (rw_reduce (rw_run (rw_new size iv t0 ig) h) now) (one_state_views size iv t0 ig h now adds).
+Proof. exact reduce_under_lock_is_a_one_state_view_proof. Qed.
+Print Assumptions reduce_under_lock_is_a_one_state_view.
+
 (* non-vacuity: 3 buckets of 10ns created at 100; adds in intervals 0,0,1,3 (the ring
    has wrapped: interval 3 reuses the bucket of interval 0); Reduce at 140 (interval 4)
    sees intervals 2 and 3 only; with ignoreCurrent at 139 (interval 3) only 1 and 2. *)
